@@ -71,6 +71,14 @@ class Ctx:
         self.notes = {}
         self.known = [f for f in load_known() if f.get('property') == prop]
         self.vcount = 0
+        # replay files of earlier runs of this property are stale
+        if os.path.isdir(REPLAYS):
+            for fn in os.listdir(REPLAYS):
+                if fn.startswith(prop + '-'):
+                    try:
+                        os.remove(os.path.join(REPLAYS, fn))
+                    except OSError:
+                        pass
 
     # ---- accounting -------------------------------------------------------------------------
     def add_mc(self, name, res):
